@@ -29,7 +29,7 @@ pub const RULE: &str = "mode 0: server configurations (1-4 apps, response kind p
 consistent with the client's parameters, private keys latest + historical) x client key sets (the client's latest id is \
 the server's latest, one of its historical ids, or unknown to it) x service URLs with arbitrary path and query x cohorts x \
 request parameters; update-check and event requests BUILT BY THE CLIENT LIBRARY are handed to handle_request in origin \
-form. Oracle: no panic; the body is accepted by parse_json_response (rejected iff an InvalidResponse kind is configured); \
+form, the body in one data frame or (1 case in 3) in 2-4 frames. Oracle: no panic; the body is accepted by parse_json_response (rejected iff an InvalidResponse kind is configured); \
 exactly the requested apps in request order with the configured decision; when the server holds the key for the request's \
 cup2key id the ETag verifies with the client's StandardCupv2Handler for this exchange and fails for the metadata of another \
 exchange, otherwise there is no acceptable ETag; a /set_responses_by_appid reconfiguration changes all later answers. \
